@@ -50,7 +50,7 @@ func init() {
 				Min:  map[string]int64{"triples": 1 << 24, "t0": 1 << 16, "t255": 1 << 16, "premul_operands": 1 << 20}},
 			{Name: "palettes", N: tier(625*3+20000, 625*3+300000), Run: c09Palette,
 				Rule: "suggested palettes through Encoder.Reset and Decode: every colour of the 5^4 multiple-of-0x40 grid (premultiplied) at index 0, 1 and 63, then PRNG palettes mixing 1/2/3/4-byte encodable colours with 1..64 explicit entries and trailing blacks",
-				Min:  map[string]int64{"palettes": 10000, "format_1": 100, "format_2": 100, "format_3": 100, "format_4": 100, "palette_after_viewbox_chunk": 5000}},
+				Min:  map[string]int64{"palettes": 10000, "format_1": 100, "format_2": 100, "format_3": 100, "format_4": 100, "palette_after_viewbox_chunk": 5000, "direct_colours_equal_to_palette_entries": 30000, "hand_made_one_byte_palettes": 3000}},
 		},
 	})
 }
@@ -418,8 +418,16 @@ func c09Palette(c *run.Ctx, idx uint64) {
 		dirtyDestination(c.Rng(idx^0x9a58), &e, past)
 		c.Count("encoder_with_a_past", 1)
 	}
+	// three register colours that are direct colours equal to palette entries
+	var regs [3]ivg.Color
+	for i := range regs {
+		regs[i] = ivg.RGBAColor(pal[run.Hash64(idx, uint64(i))%64])
+	}
 	if !c.Guard("encode", func() interface{} { return fmt.Sprint(pal) }, func() {
 		e.Reset(vb, pal)
+		for i := range regs {
+			e.SetCReg(uint8(i), false, regs[i])
+		}
 		var bb []byte
 		bb, err = e.Bytes()
 		b = append([]byte(nil), bb...)
@@ -442,9 +450,48 @@ func c09Palette(c *run.Ctx, idx uint64) {
 		c.Count("format_with_viewbox", 1)
 	}
 	ops, derr := decodeRec(b)
-	if derr != nil || len(ops) != 1 || ops[0].K != rec.KReset {
+	if derr != nil || len(ops) != 1+len(regs) || ops[0].K != rec.KReset {
 		c.Violate("palette-stream-rejected", map[string]interface{}{"palette": fmt.Sprint(pal), "bytes": hx(b), "error": errStr(derr)})
 		return
+	}
+	for i := range regs {
+		if o := ops[1+i]; o.K != rec.KSetCReg || o.Col != regs[i] {
+			c.Violate("direct-colour-equal-to-a-palette-entry-changed", map[string]interface{}{"written": rec.Spec(regs[i]).String(), "delivered": o.String(), "bytes": hx(b)})
+			return
+		}
+	}
+	c.Count("direct_colours_equal_to_palette_entries", int64(len(regs)))
+	// decoding with an option that restates one entry changes nothing
+	{
+		k := int(run.Hash64(idx, 77) % 64)
+		d2 := &rec.Dest{}
+		if err2 := decode.Decode(d2, b, decode.WithColorAt(k, pal[k])); err2 != nil || len(d2.Ops) == 0 || d2.Ops[0].Pal == nil || *d2.Ops[0].Pal != pal {
+			c.Violate("palette-changed-by-an-option-that-restates-an-entry", map[string]interface{}{"index": k, "bytes": hx(b), "error": errStr(err2)})
+			return
+		}
+	}
+	// a hand-made palette chunk in the 1-byte format, entries of every byte value:
+	// direct 1-byte colours as the table says, indirect ones (0x80..0xff) opaque black
+	if idx%4 == 2 {
+		r := c.Rng(idx ^ 0xbead)
+		n := r.Range(1, 64)
+		body := []byte{0x02, byte(n - 1)} // MID 1, N-1 with format 0
+		for i := 0; i < n; i++ {
+			if r.Chance(1, 3) {
+				body = append(body, byte(0x80+r.Intn(128)))
+			} else {
+				body = append(body, r.Byte())
+			}
+		}
+		hb := append([]byte("\x89IVG\x02"), byte(len(body)<<1)) // at most 66 bytes: a 1-byte natural
+		hb = append(hb, body...)
+		want, werr := ref.ParseMeta(hb)
+		got, gerr := decodeRec(hb)
+		c.Count("hand_made_one_byte_palettes", 1)
+		if werr != nil || gerr != nil || len(got) != 1 || got[0].Pal == nil || *got[0].Pal != want.Palette {
+			c.Violate("hand-made-one-byte-palette", map[string]interface{}{"bytes": hx(hb), "decode_error": errStr(gerr), "reference_error": fmt.Sprint(werr)})
+			return
+		}
 	}
 	if *ops[0].Pal != pal {
 		i := 0
